@@ -52,12 +52,15 @@ Record state := mkSt {
   ndel : nat -> nat;                 (* ghost: how many times PyThreadState_Delete was applied to the id *)
   finalized : bool;
   fatal : bool;                      (* a Py_FatalError of the code would have fired *)
-  dropped : nat -> bool              (* ghost: the canary of this thread state was deallocated while its thread was alive *)
+  dropped : nat -> bool;             (* ghost: the canary of this thread state was deallocated while its thread was alive *)
+  nest : nat -> nat;                 (* per thread: callbacks entered while the thread ALREADY held the GIL (gil_ensure returned
+                                        PyGILState_LOCKED) and not yet returned *)
+  ownb : nat -> bool                 (* per thread: inside its own PyGILState_Ensure()/Release() bracket *)
 }.
 
 Definition init : state :=
   mkSt (fun _ => Alive) (fun _ => None) (fun _ => None) (fun _ => false) (fun _ => TsFree) (fun _ => CFree)
-       [] None 0 0 (fun _ => 0) false false (fun _ => false).
+       [] None 0 0 (fun _ => 0) false false (fun _ => false) (fun _ => 0) (fun _ => false).
 
 Definition upd {A} (f : nat -> A) (k : nat) (v : A) : nat -> A := fun k' => if Nat.eqb k' k then v else f k'.
 
@@ -69,6 +72,8 @@ Inductive event :=
 | EvCbEnd (t : nat)     (* the callback returns (gil_release) *)
 | EvExit (t : nat)      (* thread t terminates: cffi_thread_shutdown *)
 | EvFinalize            (* the interpreter clears and deletes every thread state (Py_Finalize) *)
+| EvCbNested (t : nat) | EvCbNestedEnd (t : nat)   (* a callback entered / left with the GIL already held *)
+| EvOwnEnsure (t : nat) | EvOwnRelease (t : nat)    (* the thread's own PyGILState_Ensure / Release bracket *)
 | EvDictDrop (t : nat). (* the canary of live thread t is deallocated under cffi's feet: some code holding the GIL
                            clears t's thread-state dict / removes the "cffi.thread.canary" entry (what the header
                            comment of misc_thread_common.h calls "other pieces of code which clear PyThreadStates
@@ -99,38 +104,38 @@ Definition do_exit (s : state) (t : nat) : state :=
       | CAlive ts _ false =>
           mkSt (upd (thr s) t Exited) (gts s) (upd (tlsc s) t None) (incb s) (tss s)
                (upd (cans s) c (CAlive ts None true)) (zombies s ++ [c]) (reg s)
-               (nextts s) (nextc s) (ndel s) (finalized s) (fatal s) (dropped s)
+               (nextts s) (nextc s) (ndel s) (finalized s) (fatal s) (dropped s) (nest s) (ownb s)
       | _ =>       (* "ThreadCanaryObj is already a zombie" / dangling local_thread_canary *)
           mkSt (upd (thr s) t Exited) (gts s) (upd (tlsc s) t None) (incb s) (tss s)
-               (cans s) (zombies s) (reg s) (nextts s) (nextc s) (ndel s) (finalized s) true (dropped s)
+               (cans s) (zombies s) (reg s) (nextts s) (nextc s) (ndel s) (finalized s) true (dropped s) (nest s) (ownb s)
       end
   | _ => mkSt (upd (thr s) t Exited) (gts s) (upd (tlsc s) t None) (incb s) (tss s)
-              (cans s) (zombies s) (reg s) (nextts s) (nextc s) (ndel s) (finalized s) (fatal s) (dropped s)
+              (cans s) (zombies s) (reg s) (nextts s) (nextc s) (ndel s) (finalized s) (fatal s) (dropped s) (nest s) (ownb s)
   end.
 
 Definition step_fn (s : state) (e : event) : option state :=
   match e with
   | EvExit t =>          (* needs no GIL; threads may also terminate after Py_Finalize *)
-      match thr s t, incb s t, busy s t with
-      | Alive, false, false => Some (do_exit s t)
-      | _, _, _ => None
+      match thr s t, incb s t, busy s t, nest s t, ownb s t with
+      | Alive, false, false, 0, false => Some (do_exit s t)
+      | _, _, _, _, _ => None
       end
   | _ =>
   if finalized s then None else
   match e with
   | EvExit _ => None
-  | EvCb t =>
-      match thr s t, incb s t, busy s t with
-      | Alive, false, false =>
+  | EvCb t =>            (* the thread does not hold the GIL: gil_ensure returns PyGILState_UNLOCKED *)
+      match thr s t, incb s t, busy s t, ownb s t with
+      | Alive, false, false, false =>
           match gts s t with
           | Some ts =>
               match tss s ts with
               | TsLive o k d =>
                   Some (mkSt (thr s) (gts s) (tlsc s) (upd (incb s) t true) (upd (tss s) ts (TsLive o (S k) d))
-                             (cans s) (zombies s) (reg s) (nextts s) (nextc s) (ndel s) false (fatal s) (dropped s))
+                             (cans s) (zombies s) (reg s) (nextts s) (nextc s) (ndel s) false (fatal s) (dropped s) (nest s) (ownb s))
               | _ =>      (* the thread would run on a destroyed thread state *)
                   Some (mkSt (thr s) (gts s) (tlsc s) (incb s) (tss s) (cans s) (zombies s) (reg s)
-                             (nextts s) (nextc s) (ndel s) false true (dropped s))
+                             (nextts s) (nextc s) (ndel s) false true (dropped s) (nest s) (ownb s))
               end
           | None =>
               match reg s with
@@ -138,25 +143,25 @@ Definition step_fn (s : state) (e : event) : option state :=
               | None =>
                   let ts := nextts s in
                   Some (mkSt (thr s) (upd (gts s) t (Some ts)) (tlsc s) (incb s) (upd (tss s) ts (TsLive t 1 None))
-                             (cans s) (zombies s) (Some (t, Registering)) (S ts) (nextc s) (ndel s) false (fatal s) (dropped s))
+                             (cans s) (zombies s) (Some (t, Registering)) (S ts) (nextc s) (ndel s) false (fatal s) (dropped s) (nest s) (ownb s))
               end
           end
-      | _, _, _ => None
+      | _, _, _, _ => None
       end
   | EvSweepPop =>
       match reg s with
       | Some (t, Registering) =>
           match zombies s with
           | [] => Some (mkSt (thr s) (gts s) (tlsc s) (incb s) (tss s) (cans s) [] (Some (t, MakeCanary))
-                             (nextts s) (nextc s) (ndel s) false (fatal s) (dropped s))
+                             (nextts s) (nextc s) (ndel s) false (fatal s) (dropped s) (nest s) (ownb s))
           | c :: rest =>
               match cans s c with
               | CAlive ts tls _ =>
                   Some (mkSt (thr s) (gts s) (tlsc s) (incb s) (tss s) (upd (cans s) c (CAlive ts tls false)) rest
-                             (Some (t, Clearing c ts)) (nextts s) (nextc s) (ndel s) false (fatal s) (dropped s))
+                             (Some (t, Clearing c ts)) (nextts s) (nextc s) (ndel s) false (fatal s) (dropped s) (nest s) (ownb s))
               | _ =>    (* the list links a freed canary *)
                   Some (mkSt (thr s) (gts s) (tlsc s) (incb s) (tss s) (cans s) rest (reg s)
-                             (nextts s) (nextc s) (ndel s) false true (dropped s))
+                             (nextts s) (nextc s) (ndel s) false true (dropped s) (nest s) (ownb s))
               end
           end
       | _ => None
@@ -169,10 +174,10 @@ Definition step_fn (s : state) (e : event) : option state :=
               let '(cans', z', tl') := match d with Some c' => dealloc c' (cans s) (zombies s) (tlsc s)
                                                   | None => (cans s, zombies s, tlsc s) end in
               Some (mkSt (thr s) (gts s) tl' (incb s) (upd (tss s) ts TsDeleted) cans' z' (Some (t, Registering))
-                         (nextts s) (nextc s) (upd (ndel s) ts (S (ndel s ts))) false (fatal s) (dropped s))
+                         (nextts s) (nextc s) (upd (ndel s) ts (S (ndel s ts))) false (fatal s) (dropped s) (nest s) (ownb s))
           | _ =>        (* Clear/Delete of a destroyed thread state *)
               Some (mkSt (thr s) (gts s) (tlsc s) (incb s) (tss s) (cans s) (zombies s) (Some (t, Registering))
-                         (nextts s) (nextc s) (upd (ndel s) ts (S (ndel s ts))) false true (dropped s))
+                         (nextts s) (nextc s) (upd (ndel s) ts (S (ndel s ts))) false true (dropped s) (nest s) (ownb s))
           end
       | _ => None
       end
@@ -187,7 +192,7 @@ Definition step_fn (s : state) (e : event) : option state :=
                   Some (mkSt (thr s) (gts s) (upd (tlsc s) t (Some (Some c))) (upd (incb s) t true)
                              (upd (tss s) ts (TsLive o (S k) (Some c)))
                              (upd (cans s) c (CAlive ts (Some t) false)) (zombies s) None
-                             (nextts s) (S c) (ndel s) false (fatal s) (dropped s))
+                             (nextts s) (S c) (ndel s) false (fatal s) (dropped s) (nest s) (ownb s))
               | _ => None
               end
           | None => None
@@ -195,20 +200,80 @@ Definition step_fn (s : state) (e : event) : option state :=
       | _ => None
       end
   | EvCbEnd t =>
-      match thr s t, incb s t, gts s t with
-      | Alive, true, Some ts =>
+      match thr s t, incb s t, gts s t, nest s t with
+      | Alive, true, Some ts, 0 =>
           match tss s ts with
           | TsLive o (S (S k)) d =>
               Some (mkSt (thr s) (gts s) (tlsc s) (upd (incb s) t false) (upd (tss s) ts (TsLive o (S k) d))
-                         (cans s) (zombies s) (reg s) (nextts s) (nextc s) (ndel s) false (fatal s) (dropped s))
+                         (cans s) (zombies s) (reg s) (nextts s) (nextc s) (ndel s) false (fatal s) (dropped s) (nest s) (ownb s))
           | TsLive o _ d =>      (* counter reaches 0: PyGILState_Release destroys the thread state *)
               let '(cans', z', tl') := match d with Some c' => dealloc c' (cans s) (zombies s) (tlsc s)
                                                   | None => (cans s, zombies s, tlsc s) end in
               Some (mkSt (thr s) (upd (gts s) t None) tl' (upd (incb s) t false) (upd (tss s) ts TsDeleted)
-                         cans' z' (reg s) (nextts s) (nextc s) (upd (ndel s) ts (S (ndel s ts))) false (fatal s) (dropped s))
+                         cans' z' (reg s) (nextts s) (nextc s) (upd (ndel s) ts (S (ndel s ts))) false (fatal s) (dropped s) (nest s) (ownb s))
           | _ => None
           end
+      | _, _, _, _ => None
+      end
+  | EvCbNested t =>
+      (* a callback entered by a thread that already holds the GIL (from inside an outer callback of the
+         same thread, e.g. through a ctypes PYFUNCTYPE pointer or a C extension, or inside the thread's own
+         PyGILState_Ensure bracket): gil_ensure finds ts == current, counter++, returns PyGILState_LOCKED *)
+      match thr s t, busy s t, orb (incb s t) (ownb s t), gts s t with
+      | Alive, false, true, Some ts =>
+          match tss s ts with
+          | TsLive o k d =>
+              Some (mkSt (thr s) (gts s) (tlsc s) (incb s) (upd (tss s) ts (TsLive o (S k) d)) (cans s) (zombies s)
+                         (reg s) (nextts s) (nextc s) (ndel s) false (fatal s) (dropped s)
+                         (upd (nest s) t (S (nest s t))) (ownb s))
+          | _ => Some (mkSt (thr s) (gts s) (tlsc s) (incb s) (tss s) (cans s) (zombies s) (reg s)
+                            (nextts s) (nextc s) (ndel s) false true (dropped s) (nest s) (ownb s))
+          end
+      | _, _, _, _ => None
+      end
+  | EvCbNestedEnd t =>
+      (* gil_release(PyGILState_LOCKED): PyGILState_Release decrements; reaching 0 here is a fatal error of
+         CPython ("auto-releasing thread-state" with oldstate LOCKED) *)
+      match thr s t, nest s t, gts s t with
+      | Alive, S n, Some ts =>
+          match tss s ts with
+          | TsLive o (S (S k)) d =>
+              Some (mkSt (thr s) (gts s) (tlsc s) (incb s) (upd (tss s) ts (TsLive o (S k) d)) (cans s) (zombies s)
+                         (reg s) (nextts s) (nextc s) (ndel s) false (fatal s) (dropped s) (upd (nest s) t n) (ownb s))
+          | _ => Some (mkSt (thr s) (gts s) (tlsc s) (incb s) (tss s) (cans s) (zombies s) (reg s)
+                            (nextts s) (nextc s) (ndel s) false true (dropped s) (nest s) (ownb s))
+          end
       | _, _, _ => None
+      end
+  | EvOwnEnsure t =>
+      (* the foreign thread calls PyGILState_Ensure() itself on its existing (cffi-kept) thread state *)
+      match thr s t, incb s t, busy s t, ownb s t, gts s t with
+      | Alive, false, false, false, Some ts =>
+          match tss s ts with
+          | TsLive o k d =>
+              Some (mkSt (thr s) (gts s) (tlsc s) (incb s) (upd (tss s) ts (TsLive o (S k) d)) (cans s) (zombies s)
+                         (reg s) (nextts s) (nextc s) (ndel s) false (fatal s) (dropped s) (nest s) (upd (ownb s) t true))
+          | _ => None
+          end
+      | _, _, _, _, _ => None
+      end
+  | EvOwnRelease t =>
+      (* ... and its PyGILState_Release(): counter--, the thread state is destroyed if it reaches 0 *)
+      match thr s t, ownb s t, nest s t, gts s t with
+      | Alive, true, 0, Some ts =>
+          match tss s ts with
+          | TsLive o (S (S k)) d =>
+              Some (mkSt (thr s) (gts s) (tlsc s) (incb s) (upd (tss s) ts (TsLive o (S k) d)) (cans s) (zombies s)
+                         (reg s) (nextts s) (nextc s) (ndel s) false (fatal s) (dropped s) (nest s) (upd (ownb s) t false))
+          | TsLive o _ d =>
+              let '(cans', z', tl') := match d with Some c' => dealloc c' (cans s) (zombies s) (tlsc s)
+                                                  | None => (cans s, zombies s, tlsc s) end in
+              Some (mkSt (thr s) (upd (gts s) t None) tl' (incb s) (upd (tss s) ts TsDeleted)
+                         cans' z' (reg s) (nextts s) (nextc s) (upd (ndel s) ts (S (ndel s ts))) false (fatal s)
+                         (dropped s) (nest s) (upd (ownb s) t false))
+          | _ => None
+          end
+      | _, _, _, _ => None
       end
   | EvDictDrop t =>
       match thr s t, reg s, gts s t with
@@ -220,7 +285,7 @@ Definition step_fn (s : state) (e : event) : option state :=
                  callbacks and is never destroyed by gil_release (it is leaked at thread exit). *)
               let '(cans', z', tl') := dealloc c (cans s) (zombies s) (tlsc s) in
               Some (mkSt (thr s) (gts s) tl' (incb s) (upd (tss s) ts (TsLive o k None)) cans' z' (reg s)
-                         (nextts s) (nextc s) (ndel s) false (fatal s) (upd (dropped s) ts true))
+                         (nextts s) (nextc s) (ndel s) false (fatal s) (upd (dropped s) ts true) (nest s) (ownb s))
           | _ => None
           end
       | _, _, _ => None
@@ -238,7 +303,7 @@ Definition step_fn (s : state) (e : event) : option state :=
                      (fun c => match cans s c with CAlive _ _ _ => CFreed | x => x end)
                      [] None (nextts s) (nextc s)
                      (fun ts => match tss s ts with TsLive _ _ _ => S (ndel s ts) | _ => ndel s ts end)
-                     true (fatal s) (dropped s))
+                     true (fatal s) (dropped s) (nest s) (ownb s))
       end
   end
   end.
@@ -262,7 +327,9 @@ Fixpoint sweep_all (fuel : nat) (s : state) : option state :=
       end
   end.
 
-Inductive mevent := MCb (t : nat) | MCbEnd (t : nat) | MExit (t : nat) | MFinalize | MDrop (t : nat).
+Inductive mevent := MCb (t : nat) | MCbEnd (t : nat) | MExit (t : nat) | MFinalize | MDrop (t : nat)
+  | MNest (t : nat)      (* a nested GIL-held callback, entered and left *)
+  | MOwn (t : nat).      (* own PyGILState_Ensure; a cffi callback; own PyGILState_Release *)
 
 Definition mstep (s : state) (e : mevent) : option state :=
   match e with
@@ -274,6 +341,18 @@ Definition mstep (s : state) (e : mevent) : option state :=
   | MExit t => step_fn s (EvExit t)
   | MFinalize => step_fn s EvFinalize
   | MDrop t => step_fn s (EvDictDrop t)
+  | MNest t => match step_fn s (EvCbNested t) with Some s1 => step_fn s1 (EvCbNestedEnd t) | None => None end
+  | MOwn t =>
+      match step_fn s (EvOwnEnsure t) with
+      | Some s1 => match step_fn s1 (EvCbNested t) with
+                   | Some s2 => match step_fn s2 (EvCbNestedEnd t) with
+                                | Some s3 => step_fn s3 (EvOwnRelease t)
+                                | None => None
+                                end
+                   | None => None
+                   end
+      | None => None
+      end
   end.
 
 (* observation after a macro event, for threads < n:
@@ -284,7 +363,7 @@ Definition destroyed (s : state) (t : nat) : nat :=
   | None => 0
   end.
 Definition observe (n : nat) (s : state) (e : mevent) : list nat :=
-  (match e with MCb t => match gts s t with Some ts => S ts | None => 0 end | _ => 0 end)
+  (match e with MCb t | MNest t | MOwn t => match gts s t with Some ts => S ts | None => 0 end | _ => 0 end)
   :: map (destroyed s) (seq 0 n) ++ [if fatal s then 1 else 0].
 
 Fixpoint mrun (n : nat) (s : state) (es : list mevent) : option (list (list nat)) :=
@@ -298,13 +377,15 @@ Fixpoint mrun (n : nat) (s : state) (es : list mevent) : option (list (list nat)
   end.
 
 (* compact encoding for the harness: macro event = 16 * kind + thread, kind 0 MCb / 1 MCbEnd /
-   2 MExit / 3 MFinalize / 4 MDrop; observations compared through two fingerprints computed here *)
+   2 MExit / 3 MFinalize / 4 MDrop / 5 MNest / 6 MOwn; observations compared through two fingerprints computed here *)
 Definition decode_mev (x : nat) : mevent :=
   match Nat.div x 16 with
   | 0 => MCb (Nat.modulo x 16)
   | 1 => MCbEnd (Nat.modulo x 16)
   | 2 => MExit (Nat.modulo x 16)
   | 4 => MDrop (Nat.modulo x 16)
+  | 5 => MNest (Nat.modulo x 16)
+  | 6 => MOwn (Nat.modulo x 16)
   | _ => MFinalize
   end.
 Definition fpn (m b : N) (l : list nat) : N :=
